@@ -13,9 +13,14 @@ import (
 )
 
 
-func (fl *FileList) MakeTar(writer io.Writer) error {
+func (fl *FileList) MakeTar(writer io.Writer) (err error) {
 	wrt := tar.NewWriter(writer)
-	defer wrt.Close()
+	defer func() {
+		// Close writes the archive trailer: a failure there is a failure of the archive
+		if cerr := wrt.Close(); err == nil {
+			err = cerr
+		}
+	}()
 	for _, info := range fl.Files {
 		hdr := &tar.Header{
 			Name: "." + info.name,
